@@ -7,6 +7,7 @@ import (
 	"math/rand"
 	"reflect"
 
+	"github.com/tonkeeper/tongo/liteclient"
 	"github.com/tonkeeper/tongo/tl"
 
 	"verifharness/internal/c10"
@@ -65,6 +66,9 @@ func (z *sizer) walk(ty tlval.TvType, v any) error {
 	}
 	switch ty.Name {
 	case "int", "#", "Bool":
+		if ty.Name == "#" {
+			z.marks = append(z.marks, mark{z.off, "flags"})
+		}
 		z.off += 4
 		return nil
 	case "long":
@@ -138,14 +142,16 @@ func (d *tlDrv) feed(tg c10.Target, class string, data []byte) {
 		return
 	}
 	in := ev.M{"ty": tg.Ty, "op": tg.Op, "go": tg.T.String(), "hex": hex.EncodeToString(data), "size": len(data), "val": false,
-		"guard": guardTL(d.s, tg.Ty, data)}
+		"guard": guardTL(d.s, tg.Ty, data), "use": ""}
 	var v reflect.Value
 	var rest int
-	d.r.CallPost("TlDecode", "tl.Unmarshal", class, in, []string{"ty", "op", "size", "val", "guard"}, func(out ev.M) error {
+	d.r.CallPost("TlDecode", "tl.Unmarshal", class, in, []string{"ty", "op", "size", "val", "guard", "use"}, func(out ev.M) error {
 		var err error
 		v, rest, err = tlUnmarshal(tg.T, data)
 		return err
 	}, func(out ev.M) {
+		// what a caller does next with a decoded value: re-encode it (a proxy forwards requests and answers), read it
+		defer func() { out["use"] = useTL(v) }()
 		j, err := d.s.TvToJSON(tlval.TvNamed(tg.Ty), v)
 		if err != nil {
 			out["undumpable"] = err.Error()
@@ -158,6 +164,49 @@ func (d *tlDrv) feed(tg c10.Target, class string, data []byte) {
 			out["rest"] = -1 // a decoder that is handed the whole slice does not say how much it read
 		}
 		out["hex"] = in["hex"]
+	})
+}
+
+// useTL hands a value a TL decoder returned to tl.Marshal (MarshalTL where the type has one) and to the accessors of
+// its library-typed parts; "" or the first panic.
+func useTL(v reflect.Value) (res string) {
+	if !v.IsValid() {
+		return ""
+	}
+	func() {
+		defer func() {
+			if p := recover(); p != nil {
+				res = fmt.Sprintf("panic: tl.Marshal(%s): %v", v.Type().String(), p)
+			}
+		}()
+		if v.CanAddr() {
+			_, _ = tl.Marshal(v.Addr().Interface())
+		}
+		_, _ = tl.Marshal(v.Interface())
+	}()
+	if res == "" {
+		res = useValue(v)
+	}
+	return res
+}
+
+// feedRequest: a request as it arrives at a proxy - function id, then the arguments - through LiteapiRequestDecoder.
+func (d *tlDrv) feedRequest(tg c10.Target, class string, id uint32, args []byte) {
+	if d.r.Skipped() {
+		d.r.SkipSlot()
+		return
+	}
+	data := append([]byte{byte(id), byte(id >> 8), byte(id >> 16), byte(id >> 24)}, args...)
+	in := ev.M{"ty": tg.Ty, "op": "Fn", "go": tg.T.String(), "hex": hex.EncodeToString(data), "size": len(data), "val": false, "guard": class, "use": ""}
+	var val any
+	d.r.CallPost("TlDecode", "liteclient.LiteapiRequestDecoder", class, in, []string{"ty", "op", "size", "val", "guard", "use"}, func(out ev.M) error {
+		var err error
+		_, _, val, err = liteclient.LiteapiRequestDecoder(data)
+		return err
+	}, func(out ev.M) {
+		if val != nil {
+			out["use"] = useTL(reflect.ValueOf(val))
+		}
 	})
 }
 
@@ -261,8 +310,60 @@ func DriveTL(w *ev.Writer, o Opts) error {
 				d.feed(tg, "random", x)
 			}
 		}
+		if err := d.modeSweep(tg, o.Seed); err != nil {
+			return err
+		}
 	}
 	r.End()
+	return nil
+}
+
+// modeSweep: for a type with conditional fields, every value 0x00..0xff of the low byte of each flags word, over an
+// encoding that carries every optional field and over one that carries none.
+func (d *tlDrv) modeSweep(tg c10.Target, seed int64) error {
+	var fnID uint32
+	isFn := false
+	if fd := d.s.Fn(tg.Ty); fd != nil && tg.Op == "EncBare" {
+		if b, err := hex.DecodeString(fd.ID); err == nil && len(b) == 4 {
+			fnID, isFn = uint32(b[0])<<24|uint32(b[1])<<16|uint32(b[2])<<8|uint32(b[3]), true
+		}
+	}
+	for _, mc := range []int{1<<20 - 1, 0} {
+		rng := rand.New(rand.NewSource(typeSeed(seed, tg.Ty+"/mode") + int64(mc)))
+		g := &tlval.TvGen{R: rng, MaxVec: 2, Budget: 100, ModeCounter: mc}
+		val := g.Value(d.s, tlval.TvNamed(tg.Ty))
+		gv, err := d.s.TvFromJSON(tlval.TvNamed(tg.Ty), val, tg.T)
+		if err != nil {
+			return fmt.Errorf("building %s: %v", tg.Ty, err)
+		}
+		b, merr := tl.Marshal(gv.Interface())
+		if merr != nil {
+			return fmt.Errorf("marshal of a valid %s failed: %v", tg.Ty, merr)
+		}
+		z := &sizer{s: d.s}
+		if err := z.walk(tlval.TvNamed(tg.Ty), val); err != nil || z.off != len(b) {
+			continue
+		}
+		with := "mode+optional"
+		if mc == 0 {
+			with = "mode-optional"
+		}
+		if isFn {
+			d.feedRequest(tg, "valid", fnID, b)
+		}
+		for _, m := range z.marks {
+			if m.kind != "flags" {
+				continue
+			}
+			for x := 0; x < 256; x++ {
+				mut := put(b, m.off, byte(x))
+				d.feed(tg, with, mut)
+				if isFn {
+					d.feedRequest(tg, with, fnID, mut)
+				}
+			}
+		}
+	}
 	return nil
 }
 
